@@ -682,4 +682,30 @@ example :
        500000, 10000, 10000]).rel = 0 := by
   set_option maxRecDepth 8000 in decide
 
+/-- **C10 (the newest request wins)** a request made while the shutter is on its way somewhere else (a task running or an
+    output energised) always becomes the task - also when the reported position happens to equal the requested one at
+    that moment (before the repair in /repo such a request was ignored and the shutter ran on to the old target) -/
+theorem c10_request_replaces_running (s : RsT) (g : Nat) (h : s.tstate ≠ 0 ∨ s.rel ≠ 0) :
+    (addTask s g).tstate = 1 ∧ (addTask s g).target = g ∧ (addTask s g).dir = 0 := by
+  unfold addTask
+  have : ¬ (reportedPos s.pos = (g : Int) ∧ s.tstate = 0 ∧ s.rel = 0) := by
+    intro hh; rcases h with h | h
+    · exact h hh.2.1
+    · exact h hh.2.2
+  rw [if_neg this]
+  exact ⟨rfl, rfl, rfl⟩
+
+/-- ... and if the stored position is exactly the requested one, the next callback stops the motor there -/
+theorem c10_request_at_current_position_stops (P : RsP) (s : RsT) (g : Nat) (h : s.tstate ≠ 0 ∨ s.rel ≠ 0)
+    (hk : known s.pos = true) (heq : s.pos - 100 = g * 100) :
+    (taskStep P (addTask s g)).rel = 0 ∧ (taskStep P (addTask s g)).tstate = 0 := by
+  obtain ⟨a1, a2, a3⟩ := c10_request_replaces_running s g h
+  have hpos : (addTask s g).pos = s.pos := by
+    unfold addTask; split <;> rfl
+  unfold taskStep
+  rw [if_neg (by rw [a1]; decide)]
+  rw [hpos, hk]
+  simp only [Bool.not_true, Bool.false_eq_true, if_false, a1, a2, heq, Nat.lt_irrefl, if_true]
+  simp [relOff, a3]
+
 end SuplaVerif.C10
